@@ -91,10 +91,12 @@ func (r *Report) add(rule, key, pos string, v Verdict, nontrivial bool, detail s
 	return o
 }
 
-func (r *Report) OK(rule, key, pos, detail string)        { r.add(rule, key, pos, Discharged, true, detail) }
-func (r *Report) OKTrivial(rule, key, pos, detail string) { r.add(rule, key, pos, Discharged, false, detail) }
-func (r *Report) Bad(rule, key, pos, detail string)       { r.add(rule, key, pos, Violated, true, detail) }
-func (r *Report) Unk(rule, key, pos, detail string)       { r.add(rule, key, pos, Undecided, true, detail) }
+func (r *Report) OK(rule, key, pos, detail string) { r.add(rule, key, pos, Discharged, true, detail) }
+func (r *Report) OKTrivial(rule, key, pos, detail string) {
+	r.add(rule, key, pos, Discharged, false, detail)
+}
+func (r *Report) Bad(rule, key, pos, detail string) { r.add(rule, key, pos, Violated, true, detail) }
+func (r *Report) Unk(rule, key, pos, detail string) { r.add(rule, key, pos, Undecided, true, detail) }
 
 // Check is a convenience: ok → discharged else violated.
 func (r *Report) Check(ok bool, rule, key, pos, okDetail, badDetail string) bool {
